@@ -860,6 +860,10 @@ case('C20', "C20-seed10", "mutant", 'seeded (round 6): scheme/ocidir/blob.go OCI
 case('C20', "C20-seed11", "mutant", 'seeded (round 6): scheme/ocidir/tag.go OCIDir.tagDelete (used by TagDelete and, for the fallback tag of an emptied referrer list, by referrerDelete)',
      patch="seeded/C20-11/patch.diff", expect=[('C20.R1', 'tagDelete', 'os.Remove path')])
 
+# C10.R2 (invalidate again) / D25
+case("C10", "C10-D25", "mutant", "historical defect D25 re-introduced: referrerDelete invalidates the cached list only before it takes the fallback tag lock",
+     patch="selftest/regress/D25.diff", expect=[("C10.R2", "referrerDelete", "delete invalidates again under the lock")])
+
 def main():
     bad = 0
     for pid, cases in CASES.items():
